@@ -45,9 +45,16 @@ def make_forms():
     dom = ufl.Mesh(basix.ufl.element("Lagrange", "interval", 1, shape=(1,)))
     V = ufl.FunctionSpace(dom, basix.ufl.element("Lagrange", "interval", 1))
     u, v = ufl.TrialFunction(V), ufl.TestFunction(V)
+    import numpy as np
+    f = ufl.Coefficient(V)
+    pts = np.array([[0.25], [0.75]])
+    # per module key: the request as a form (compile_forms) and as an expression (compile_expressions) -
+    # the two entry points duplicate the lock / failure handling in jit.py
     return {
-        "k1": (u * v * ufl.dx, [[1 / 3, 1 / 6], [1 / 6, 1 / 3]]),
-        "k2": (ufl.inner(ufl.grad(u), ufl.grad(v)) * ufl.dx, [[1.0, -1.0], [-1.0, 1.0]]),
+        "k1": {"form": (u * v * ufl.dx, [[1 / 3, 1 / 6], [1 / 6, 1 / 3]]),
+               "expr": ((f, pts), [2.5, 1.5])},
+        "k2": {"form": (ufl.inner(ufl.grad(u), ufl.grad(v)) * ufl.dx, [[1.0, -1.0], [-1.0, 1.0]]),
+               "expr": ((ufl.grad(f), pts), [-2.0, -2.0])},
     }
 
 
@@ -306,22 +313,37 @@ def child_main(proc, sockpath, cache_dir, forms, max_polls, opt_flags):
         if cmd.get("cmd") != "request":
             os._exit(0)
         k, f = cmd["key"], cmd["fault"]
+        variant = cmd.get("variant", "form")
         st["fault"], st["key"] = f, k
         os.environ["JITDRV_FAULT"] = f
         st["orig"] = (list(root.handlers), sys.stdout, os.getcwd())
-        form, expect = forms[k]
+        obj, expect = forms[k][variant]
         outcome, exc, result_ok = "returned", "", True
         try:
-            objs, mod, _ = jit.compile_forms(
-                [form], options={"scalar_type": "float64"}, cache_dir=cache_dir,
-                timeout=max_polls, cffi_extra_compile_args=list(opt_flags))
-            ffi = mod.ffi
-            integral = objs[0].form_integrals[0]
-            A = np.zeros((2, 2))
             x = np.array([0.0, 0, 0, 1.0, 0, 0])
-            integral.tabulate_tensor_float64(
-                ffi.cast("double *", A.ctypes.data), ffi.NULL, ffi.NULL,
-                ffi.cast("double *", x.ctypes.data), ffi.NULL, ffi.NULL, ffi.NULL)
+            if variant == "form":
+                objs, mod, _ = jit.compile_forms(
+                    [obj], options={"scalar_type": "float64"}, cache_dir=cache_dir,
+                    timeout=max_polls, cffi_extra_compile_args=list(opt_flags))
+                ffi = mod.ffi
+                integral = objs[0].form_integrals[0]
+                A = np.zeros((2, 2))
+                integral.tabulate_tensor_float64(
+                    ffi.cast("double *", A.ctypes.data), ffi.NULL, ffi.NULL,
+                    ffi.cast("double *", x.ctypes.data), ffi.NULL, ffi.NULL, ffi.NULL)
+            else:
+                objs, mod, _ = jit.compile_expressions(
+                    [obj], options={"scalar_type": "float64"}, cache_dir=cache_dir,
+                    timeout=max_polls, cffi_extra_compile_args=list(opt_flags))
+                ffi = mod.ffi
+                A = np.zeros(2)
+                w = np.array([3.0, 1.0])          # f(X) = 3 (1 - X) + X on the reference interval
+                ent = np.zeros(1, dtype=np.intc)
+                perm = np.zeros(1, dtype=np.uint8)
+                objs[0].tabulate_tensor_float64(
+                    ffi.cast("double *", A.ctypes.data), ffi.cast("double *", w.ctypes.data), ffi.NULL,
+                    ffi.cast("double *", x.ctypes.data), ffi.cast("int *", ent.ctypes.data),
+                    ffi.cast("uint8_t *", perm.ctypes.data), ffi.NULL)
             result_ok = bool(np.allclose(A, np.array(expect), rtol=1e-12, atol=1e-14))
         except TimeoutError:
             outcome, exc = "raised", "TimeoutError"
@@ -342,7 +364,8 @@ EV2ACTION = {"codegen": "Codegen", "ccsrc": "CcSource", "cc": "CcObject", "link"
 
 
 class Sched:
-    def __init__(self, forms, procs, keys, max_polls, opt_flags=("-O0",)):
+    def __init__(self, forms, procs, keys, max_polls, opt_flags=("-O0",), variant="form"):
+        self.variant = variant
         self.forms, self.procs, self.keys, self.max_polls = forms, procs, keys, max_polls
         self.opt_flags = opt_flags
         self.dir = Path(tempfile.mkdtemp(prefix="jitdrv-"))
@@ -511,7 +534,7 @@ class Sched:
         self.isbuilder[p] = False
         self.py[p] = {"hand": "orig", "out": "orig", "cwd": "orig"}
         sawc = self.project()[k]["cached"]
-        self._go_idle(p, {"cmd": "request", "key": k, "fault": f})
+        self._go_idle(p, {"cmd": "request", "key": k, "fault": f, "variant": self.variant})
         posts, nxt = self._pump(p)
         self._record(p, "request", {"key": k, "fault": f, "sawCached": sawc}, "ok")
 
@@ -619,7 +642,7 @@ PC2PARK = {"returned": "idle", "raised_fail": "idle", "raised_timeout": "idle"}
 
 def run_schedule(forms, job):
     """Replay a TLC behaviour: job = {procs, keys, max_polls, steps: [{act, p, k?, f?, expect}]}."""
-    s = Sched(forms, job["procs"], job["keys"], job["max_polls"])
+    s = Sched(forms, job["procs"], job["keys"], job["max_polls"], variant=job.get("variant", "form"))
     drift = None
     try:
         for i, stp in enumerate(job["steps"]):
@@ -701,7 +724,7 @@ def run_random(forms, job):
     """Seeded random scheduling at the finest grain (every intercepted call), with faults and kills."""
     rnd = random.Random(job["seed"])
     procs, keys = job["procs"], job["keys"]
-    s = Sched(forms, procs, keys, job["max_polls"])
+    s = Sched(forms, procs, keys, job["max_polls"], variant=job.get("variant", "form"))
     reqs = kills = fails = 0
     try:
         for _ in range(job["nsteps"]):
